@@ -81,7 +81,8 @@ Present(v, d) == v.kind[d] # "absent"
 BasePackage(mallc, reexp, withRall, ext, cyc, mal, kbase) ==
   [kind |-> [d \in DefIds |-> CASE d = "M" -> "module" [] d \in {"B", "K"} -> "class" [] d \in {"bm", "f"} -> "function"
                                 [] d \in {"km", "kp", "x", "p"} -> "attribute" [] OTHER -> "absent"],
-   val |-> [d \in DefIds |-> "v1"],                 \* value of attributes
+   val |-> [d \in DefIds |-> IF d = "km" THEN "unset" ELSE "v1"],   \* value of attributes; "unset" = annotation only (`km: int`)
+   kext |-> TRUE,                                  \* class K also derives from an external, unresolvable base (LookupError)
    opt |-> {},                                     \* functions that have the extra optional keyword parameter
    ret |-> {},                                     \* functions that have a return annotation (-> int)
    kbase |-> kbase,                                \* class K(B)
@@ -192,9 +193,11 @@ MemberLoop(vo, vn, ms, i, cn, acc) ==
 
 \* _class_incompatibilities: bases first, then members
 ClassIncompat(vo, vn, ho, hn, acc) ==
-  LET bo == IF ho.id = "K" /\ vo.kbase THEN 1 ELSE 0
-      bn == IF hn.id = "K" /\ vn.kbase THEN 1 ELSE 0
-      acc1 == IF bn # bo /\ bn < bo THEN Yield(acc, "CLASS_REMOVED_BASE", hn) ELSE acc
+  \* Class.bases (the expressions as written): B resolves in the package, LookupError does not
+  LET Bases(v, h) == IF h.id # "K" THEN <<>> ELSE (IF v.kbase THEN <<"B">> ELSE <<>>) \o (IF v.kext THEN <<"LookupError">> ELSE <<>>)
+      bo == Bases(vo, ho)
+      bn == Bases(vn, hn)
+      acc1 == IF bn # bo /\ Len(bn) < Len(bo) THEN Yield(acc, "CLASS_REMOVED_BASE", hn) ELSE acc
   IN MemberIncompat(vo, vn, ho, hn, acc1)
 \* _function_incompatibilities restricted to the one parameter the catalogue touches (`*, opt=None`):
 \* removed unless swallowed / added as required never fire for an added optional keyword-only parameter
@@ -275,9 +278,9 @@ CanonPathsOf(d) == {z[1] : z \in {y \in canon : y[2] = d}}
 OkPaths == PubPathSet \cup {z[1] : z \in {y \in canon : PublicPathsOf(y[2]) # {}}}
 
 \* ---- the edit catalogue ------------------------------------------------------------------------------
-Incompatible == {"Remove", "ChangeKind", "RemoveBase", "ChangeValue"}
+Incompatible == {"Remove", "ChangeKind", "RemoveBase", "RemoveExtBase", "ChangeValue"}
 KindFor(op) == CASE op = "Remove" -> "OBJECT_REMOVED" [] op = "ChangeKind" -> "OBJECT_CHANGED_KIND"
-                 [] op = "RemoveBase" -> "CLASS_REMOVED_BASE" [] OTHER -> "ATTRIBUTE_CHANGED_VALUE"
+                 [] op \in {"RemoveBase", "RemoveExtBase"} -> "CLASS_REMOVED_BASE" [] OTHER -> "ATTRIBUTE_CHANGED_VALUE"
 Logged(op, d, v2) == /\ Len(log) < MaxEdits
                      /\ new' = v2 /\ log' = Append(log, [op |-> op, id |-> d])
                      /\ report' = Report(old, v2)
@@ -309,6 +312,9 @@ ChangeValue(d) ==
 RemoveBase ==
   /\ new.kind["K"] = "class" /\ old.kbase /\ new.kbase
   /\ Logged("RemoveBase", "K", [new EXCEPT !.kbase = FALSE])
+RemoveExtBase ==                                   \* class K(B, LookupError) -> class K(B)
+  /\ new.kind["K"] = "class" /\ old.kext /\ new.kext
+  /\ Logged("RemoveExtBase", "K", [new EXCEPT !.kext = FALSE])
 \* compatible edits
 AddBase ==
   /\ new.kind["K"] = "class" /\ new.kind["B"] = "class" /\ ~old.kbase /\ ~new.kbase
@@ -349,7 +355,7 @@ Init ==
   /\ canon = CanonPaths(old)
 
 Next == \/ \E d \in DefIds : Remove(d) \/ ChangeKind(d) \/ ChangeValue(d) \/ AddPublic(d) \/ AddOptKw(d) \/ AddReturn(d)
-        \/ RemoveBase \/ AddBase \/ RemoveImport \/ \E nm \in {"ext", "cyc"} : Vendor(nm)
+        \/ RemoveBase \/ RemoveExtBase \/ AddBase \/ RemoveImport \/ \E nm \in {"ext", "cyc"} : Vendor(nm)
 Spec == Init /\ [][Next]_vars
 
 \* ---- the property ------------------------------------------------------------------------------------
@@ -367,6 +373,9 @@ LivePublic(i) == {q \in PublicPathsOf(log[i].id) : ~Hidden(i, q)}
 LiveAny(i) == {q \in AllPathsOf(log[i].id) : ~Hidden(i, q)}
 Masked(i) == LivePublic(i) = {}
 PublicEdit(i) == log[i].op \in Incompatible /\ PublicPathsOf(log[i].id) # {}
+\* known defect domain: one base dropped and another one added in the same script - the lists differ but the new
+\* one is not shorter, `len(new.bases) < len(old.bases)` is false and the removal goes unreported
+BaseSwap(i) == log[i].op \in {"RemoveBase", "RemoveExtBase"} /\ \E j \in 1..Len(log) : log[j].op = "AddBase"
 ReportedAt(i, paths) == \E b \in report.out : b[1] = KindFor(log[i].op) /\ b[2] \in paths
 CanonPublic(d) == IF d = "mal" THEN PublicPathsOf(d) # {} ELSE CP(d) \in PublicPathsOf(d)
 
@@ -376,11 +385,11 @@ I_CompatSilent == (report.aborted = "no" /\ \A i \in 1..Len(log) : ~PublicEdit(i
 \*      against one of its public paths - where its canonical path is public ...
 I_ReportedAtPublicPath_Clean ==
   report.aborted = "no" => \A i \in 1..Len(log) :
-     (PublicEdit(i) /\ ~Masked(i) /\ CanonPublic(log[i].id)) => ReportedAt(i, LivePublic(i))
+     (PublicEdit(i) /\ ~Masked(i) /\ ~BaseSwap(i) /\ CanonPublic(log[i].id)) => ReportedAt(i, LivePublic(i))
 \*      ... and at least against some access path of the object (public, or below pkg.M) everywhere
 I_ReportedSomewhere ==
   report.aborted = "no" => \A i \in 1..Len(log) :
-     (PublicEdit(i) /\ ~Masked(i)) => ReportedAt(i, LiveAny(i))
+     (PublicEdit(i) /\ ~Masked(i) /\ ~BaseSwap(i)) => ReportedAt(i, LiveAny(i))
 \*      the strict clause everywhere (DiffTree_defect_path.cfg: violated by the unchanged code)
 I_ReportedAtPublicPath ==
   report.aborted = "no" => \A i \in 1..Len(log) :
@@ -400,7 +409,7 @@ DepthBound == Len(log) <= MaxEdits
 Obligations ==
   [i \in 1..Len(log) |->
      [op |-> log[i].op, id |-> log[i].id, public |-> PublicEdit(i), masked |-> Masked(i),
-      kind |-> KindFor(log[i].op), paths |-> LivePublic(i), lenient |-> LiveAny(i)]]
+      swap |-> BaseSwap(i), kind |-> KindFor(log[i].op), paths |-> LivePublic(i), lenient |-> LiveAny(i)]]
 EmitCase ==
   Emit => PrintT(<<"CASE", ToJson([mpriv |-> mpriv, site |-> site, old |-> old, new |-> new, log |-> log,
                                    aborted |-> report.aborted, out |-> report.out, exit |-> ExitCode(report),
